@@ -1,0 +1,30 @@
+//go:build verif
+
+package service
+
+import (
+	"github.com/icon-project/goloop/module"
+	"github.com/icon-project/goloop/service/state"
+)
+
+type verifChain struct {
+	module.Chain
+	nid int
+}
+
+func (c *verifChain) NID() int { return c.nid }
+func (c *verifChain) CID() int { return c.nid }
+
+// VerifValidateTxs runs transition.validateTxs (the loop a validator applies to
+// the transactions of a proposed block: version, network, signature, timestamp
+// window, cumulative PreValidate) on a minimal transition. The system account
+// of wc must define nextBlockVersion so that the platform is not consulted.
+// Verification hook; add-only.
+func VerifValidateTxs(l module.TransactionList, wc state.WorldContext, nid int) error {
+	t := &transition{
+		transitionContext: &transitionContext{chain: &verifChain{nid: nid}},
+	}
+	// as doExecute does for the normal transactions
+	tsr := NewTxTimestampRangeFor(wc, module.TransactionGroupNormal)
+	return t.validateTxs(l, wc, tsr)
+}
